@@ -33,24 +33,6 @@ Definition judge_m2j (sc : schema) (m : md) (r1 : result json) (r2 : option (res
        | _ => Fails 0
        end.
 
-(* the documented input language of the detailed Plutus schema *)
-Definition is_some {A} (o : option A) : bool := match o with Some _ => true | None => false end.
-Fixpoint pdom_detailed (j : json) : bool :=
-  match j with
-  | JObj [(k, v)] =>
-      if bytes_eqb k k_int then
-        match v with JInt _ | JNegZero => true | JFloat lit => is_some (parse_bigint lit) | _ => false end
-      else if bytes_eqb k k_bytes then
-        match v with JStr s => negb (starts_with k_0x s) && is_some (unhex s) | _ => false end
-      else if bytes_eqb k k_list then match v with JArr l => forallb pdom_detailed l | _ => false end
-      else if bytes_eqb k k_map then match v with JArr es => entries_all k_k k_v pdom_detailed es | _ => false end
-      else false
-  | JObj [(k1, v1); (k2, v2)] =>
-      bytes_eqb k1 k_constructor && bytes_eqb k2 k_fields && is_some (as_u64 v1) &&
-      match v2 with JArr fs => forallb pdom_detailed fs | _ => false end
-  | _ => false
-  end.
-
 Definition judge_j2p (sc : pschema) (j : json) (r1 : result pd) (r2 : option (result json)) : verdict :=
   if negb (json_wf j) then NA
   else match sc with
